@@ -67,4 +67,11 @@ theorem keys_from_source (author value id : Bytes) (kind letter t : Nat) :
     Src.keyTc letter value t id = keyTc letter value t id ∧ Src.keyAtc author letter value t id = keyAtc author letter value t id ∧
     Src.keyKtc kind letter value t id = keyKtc kind letter value t id := Pocket.keys_from_source author value id kind letter t
 
+/-- index and deindex walk an event alike: what `Lmdb::index` puts and what `Lmdb::deindex` deletes, as lmdb/mod.rs spells them today
+(fixed entries, the tag loop with its guards "a name, of one byte, and a value", the three tag entries), are the same (table, key)
+pairs - those of the model's `eventKeys`, which the key dump of the real tables is compared with after every step -/
+theorem index_walk_from_source (e : EventRec) (tk : String × Bytes) :
+    (tk ∈ Src.indexKeys e ↔ tk ∈ eventKeys e) ∧ (tk ∈ Src.deindexKeys e ↔ tk ∈ eventKeys e) :=
+  Pocket.index_walk_from_source e tk
+
 end Pocket.C17
